@@ -255,9 +255,22 @@ def register(generators, gm):
                     raise GenError("IsTerminal for %s: unexpected attribute #[%s]" % (ty, a))
             body, _ = block_at(src, m.end() - 1, "impl IsTerminal for " + ty)
             mm = re.fullmatch(r"(?:#\[inline\])?fnis_terminal\(&self\)->bool\{(.*)\}", squash(body))
-            if not mm:
-                raise GenError("IsTerminal for %s: impl body not recognised: %r" % (ty, squash(body)[:120]))
-            b = mm.group(1)
+            b = mm.group(1) if mm else None
+            known = ("false", "is_terminal_polyfill::IsTerminal::is_terminal(self)", "(**self).is_terminal()")
+            if b not in known:
+                # not one of the three spellings: what the impl MEANS is decided by its translation (tools/gen_fn_glue.py,
+                # the code Generated/GlueFn.v is written from; Proofs/GlueGen.v translated_is_terminal_*): the constant
+                # false / the polyfill asked about self / the pointee's impl.  GEN-ERROR only if that fails too
+                import gen_fn_glue
+                from rs2v.driver import TranslateError
+                try:
+                    cls = gen_fn_glue.is_terminal_classes(gm.read(rel))
+                except TranslateError as e:
+                    raise GenError("IsTerminal for %s: body not recognised and not translatable: %s" % (ty, e))
+                lab = ty.replace("<'_>", "").replace("<'static>", "")
+                if lab not in cls:
+                    raise GenError("IsTerminal for %s: body not recognised, no translated impl under that name" % ty)
+                b = {"false": known[0], "polyfill": known[1], "forward": known[2]}[cls[lab]]
             if b == "false" and generics is None:
                 const_false.append(ty)
             elif b == "is_terminal_polyfill::IsTerminal::is_terminal(self)" and generics is None:
